@@ -122,7 +122,13 @@ func (m msgServer) SwapCoin(
 		return nil, errorsmod.Wrap(types.ErrInvalidDeadline, "deadline has passed for MsgSwapOrder")
 	}
 
-	if m.k.blockedAddrs[msg.Output.Address] {
+	// look the recipient up by its canonical spelling: the blocked list is keyed
+	// by lower-case bech32, an all-upper-case address names the same account
+	recipient, err := sdk.AccAddressFromBech32(msg.Output.Address)
+	if err != nil {
+		return nil, err
+	}
+	if m.k.blockedAddrs[recipient.String()] {
 		return nil, errorsmod.Wrapf(
 			sdkerrors.ErrUnauthorized,
 			"%s is not allowed to receive external funds",
